@@ -27,12 +27,12 @@ static int b_part[B_MAXR]; /* bit mask of the participants of round k */
 
 static inline void b_arrive(int i, int k)
 {
-    b_enter[i][k] = abtmc_step();
+    b_enter[i][k] = abtmc_step() + 1; /* stamps start at 0; 0 = not yet */
 }
 
 static inline void b_depart(int i, int k, const char *what)
 {
-    long l = abtmc_step();
+    long l = abtmc_step() + 1;
     b_leave[i][k] = l;
     int want = __builtin_popcount((unsigned)b_part[k]), have = 0;
     for (int j = 0; j < B_MAXA; j++)
